@@ -45,8 +45,10 @@ ASSUMPTIONS = ["tzinfo objects are fixed-offset zones (datetime.timezone, dateut
                "utcoffset independent of the date",
                "offsets are whole minutes strictly inside (-24h, 24h) as in the property's quantifier",
                "timestamps handed to datetime(timestamp, offset) are integers or floats that determine their "
-               "microsecond exactly; not modelled: datetime(string), format, now(), localtz(), "
-               "timespan * float, timespan / number"]
+               "microsecond exactly; datetime(string) and format() only for the ISO-8601 shape "
+               "YYYY-MM-DDTHH:MM:SS[.ffffff](Z|+HH:MM|-HH:MM|nothing), format() only for years >= 1000 (the C library does "
+               "not zero-pad %Y); not modelled: other strings/formats, now(), localtz(), "
+               "strings and formats of other shapes"]
 EXPLANATION = ("algebraic proof (lia/ring over Z, Q) of the instant laws on the model + differential check of every "
                "single call of date_time.py against the model inside Coq + the laws themselves run on the real engine")
 ALLOWED_AXIOMS = []
@@ -168,6 +170,8 @@ def observe(r):
         return ("naive", wall_of(r)) if o is None else ("dt", wall_of(r), o)
     if isinstance(r, datetime.timedelta):
         return ("ts", r // US)
+    if isinstance(r, str):
+        return ("str", r)
     return ("other", type(r).__name__)
 
 
@@ -187,6 +191,8 @@ def obs_term(o):
         return gal.app("OFloat", gal.z(o[1]), "%d%%positive" % o[2])
     if k == "err":
         return gal.app("OErr", o[1])
+    if k == "str":
+        return gal.app("OStr", gal.s(o[1]))
     return "OOther"
 
 
@@ -212,6 +218,7 @@ FIELDS = {"FYear": "year", "FMonth": "month", "FDay": "day", "FHour": "hour", "F
 UNITS = {"UMicroseconds": ("microseconds", 1), "UMilliseconds": ("milliseconds", 1000),
          "USeconds": ("seconds", 10 ** 6), "UMinutes": ("minutes", 6 * 10 ** 7),
          "UHours": ("hours", 36 * 10 ** 8), "UDays": ("days", 864 * 10 ** 8)}
+ISO_FORMAT = "%Y-%m-%dT%H:%M:%S.%f%:z"
 FIELD_NAMES = ["year", "month", "day", "hour", "minute", "second", "microsecond"]
 TSOPS = {"TAdd": "%s + %s", "TSub": "%s - %s", "TMulInt": "%s * %s", "TDivTs": "%s / %s", "TNeg": "-%s", "TPos": "+%s"}
 
@@ -308,6 +315,10 @@ def case_text(c):
         return "timespan(%s)" % ", ".join("%s => %d" % (n, v) for n, v in zip(names, a)), None
     if op == "OpTsCmp":
         return "$.x %s $.y" % CMPS[a[0]], {"x": a[1] * US, "y": a[2] * US}
+    if op == "OpFormatIso":
+        return "%s.format('%s')" % (H(0, "a"), ISO_FORMAT), data
+    if op == "OpParseIso":
+        return "datetime($.s)", {"s": a[0]}
     if op == "OpTsMul":
         return "$.x * $.n", {"x": a[0] * US, "n": num_value(a[1])}
     if op == "OpTsMulR":
@@ -353,6 +364,10 @@ def case_op_term(c):
         return gal.app(op, a[0], z(a[1]), z(a[2]))
     if op == "OpTsOp":
         return gal.app(op, a[0], z(a[1]), z(a[2]))
+    if op == "OpFormatIso":
+        return gal.app(op, hdt_term(a[0]))
+    if op == "OpParseIso":
+        return gal.app(op, gal.s(a[0]))
     if op in ("OpTsMul", "OpTsDiv"):
         return gal.app(op, z(a[0]), num_term(a[1]))
     if op == "OpTsMulR":
@@ -441,6 +456,14 @@ def reference(c):
         if op == "OpTimespan":
             d, h, m, s, ms, us = a
             return _ts_obs(((((d * 24 + h) * 60 + m) * 60 + s) * 1000 + ms) * 1000 + us), None
+        if op == "OpFormatIso":
+            return ("str", ref_aware(a[0]).isoformat(timespec="microseconds")), None
+        if op == "OpParseIso":
+            try:
+                d = datetime.datetime.fromisoformat(a[0])
+            except ValueError:
+                return ("err", "RangeErr"), None
+            return _dt_obs(d if d.tzinfo is not None else d.replace(tzinfo=UTC)), None
         if op in ("OpTsMul", "OpTsMulR", "OpTsDiv"):
             t, n = (a[1], a[0]) if op == "OpTsMulR" else (a[0], a[1])
             if op == "OpTsDiv":
@@ -497,6 +520,8 @@ LAW = {
     "OpTimespan": "timespan(...) is not the sum of its components",
     "OpTsCmp": "timespan comparison is not that of the microsecond counts",
     "OpTsOp": "timespan arithmetic is not that of the microsecond counts",
+    "OpFormatIso": "d.format(ISO-8601 format) is not the ISO text of d's reading and offset (naive taken as UTC)",
+    "OpParseIso": "datetime(ISO-8601 text) is not the reading and offset the text spells (no zone = UTC)",
     "OpTsMul": "timespan * number is not the timespan nearest microseconds * number",
     "OpTsMulR": "number * timespan is not the timespan nearest microseconds * number",
     "OpTsDiv": "timespan / number is not the timespan nearest microseconds / number",
@@ -614,11 +639,45 @@ def gen_scale(rng):
     return {"op": "OpTsDiv", "args": [t * int(n[1]), n]}       # a multiple: (t * k) / k
 
 
+def gen_iso_text(rng):
+    """a string of the modelled shape YYYY-MM-DDTHH:MM:SS[.ffffff](Z|+HH:MM|-HH:MM|nothing); sometimes with
+    a field out of range (the shape is kept: the parser must refuse, not reinterpret)"""
+    n = DMIN + gen_wall(rng) * US
+    f = [n.year, n.month, n.day, n.hour, n.minute, n.second, n.microsecond]
+    if rng.random() < 0.15:
+        i = rng.randrange(1, 6)
+        f[i] = rng.choice([[13, 0], [0, 32, 30, 31], [24], [60], [60]][i - 1])
+    txt = "%04d-%02d-%02dT%02d:%02d:%02d" % tuple(f[:6])
+    if rng.random() < 0.7:
+        txt += ".%06d" % f[6]
+    q = rng.random()
+    if q < 0.2:
+        txt += "Z"
+    elif q < 0.9:
+        o = gen_offmin(rng)
+        if o == 0 and rng.random() < 0.5:
+            o = 1
+        txt += "%s%02d:%02d" % ("-" if o < 0 else "+", abs(o) // 60, abs(o) % 60)
+    return txt
+
+
+def gen_iso(rng):
+    if rng.random() < 0.5:
+        return {"op": "OpParseIso", "args": [gen_iso_text(rng)]}
+    for _ in range(20):
+        h = gen_host(rng)
+        if (DMIN + h["wall"] * US).year >= 1000:      # the C library's %Y does not pad smaller years
+            return {"op": "OpFormatIso", "args": [h]}
+    return {"op": "OpParseIso", "args": [gen_iso_text(rng)]}
+
+
 def gen_case(rng):
     r = rng.random()
     if r < 0.05:
         return gen_scale(rng)
-    r = (r - 0.05) / 0.95
+    if r < 0.10:
+        return gen_iso(rng)
+    r = (r - 0.10) / 0.90
     if r < 0.14:
         # datetime(timestamp, offset): timestamps over the whole range, near the edges, and just outside
         style = rng.choice(["int", "float", "float"])
@@ -731,6 +790,8 @@ def nontrivial(c):
         return any(h["offmin"] != 0 or is_naive(h) or h["wall"] < DAY or h["wall"] >= MAXWALL - DAY for h in hs)
     if c["op"] == "OpFromTimestamp":
         return c["args"][1] != 0
+    if c["op"] == "OpParseIso":
+        return True
     return any(isinstance(x, int) and x != 0 for x in c["args"])
 
 
@@ -779,7 +840,7 @@ THEOREMS = {
     "OpUnit": ["C20_units"], "OpTimespan": ["C20_units"],
     "OpTsMul": ["C20_timespan_scale", "C20_timespan_scale_rational"], "OpTsMulR": ["C20_timespan_scale_rational"],
     "OpTsDiv": ["C20_timespan_scale", "C20_timespan_scale_rational"], "OpTsOp": ["C20_timespan_ratio", "C20_timespan_order"],
-    "OpTsCmp": ["C20_timespan_order"],
+    "OpTsCmp": ["C20_timespan_order"], "OpFormatIso": ["C20_iso_roundtrip"], "OpParseIso": ["C20_iso_roundtrip"],
     "OpBuild": ["C20_civil_roundtrip"], "OpReplace": ["C20_fields_determine_reading", "C20_naive_is_utc"],
     "OpField": ["C20_civil_roundtrip"], "OpDate": ["C20_date_time_split"], "OpTime": ["C20_date_time_split"],
 }
@@ -1003,6 +1064,21 @@ def law_replace_offset(inp):
     return None
 
 
+def law_iso(inp):
+    """datetime(d.format(ISO)) = d with the same offset (years >= 1000)"""
+    spec = inp["d"]
+    d = ref_aware(spec)
+    data = {"a": host(spec)}
+    t = host_text(spec, "a")
+    r = ev("datetime(%s.format('%s'))" % (t, ISO_FORMAT), data)
+    if not same_dt(r, d):
+        return {"observed": "datetime(d.format(ISO)) -> %r" % (r,), "required": repr(d)}
+    r = ev("datetime(%s.format('%s')) = %s" % (t, ISO_FORMAT, t), data)
+    if r is not True:
+        return {"observed": "datetime(d.format(ISO)) = d -> %r" % (r,), "required": True}
+    return None
+
+
 UNARY = ["timestamp", "utc", "offset", "date", "time", "year", "month", "day", "hour", "minute", "second", "microsecond",
          "weekday"]
 
@@ -1047,6 +1123,7 @@ LAWS = {
     "order_is_instant_order": (law_order, "equality/ordering of datetimes is not that of their instants (naive taken as UTC)"),
     "units": (law_units, "timespan unit properties are not one quantity in different units"),
     "naive_is_utc": (law_naive, "a naive host datetime is not treated as the same reading at UTC"),
+    "iso_roundtrip": (law_iso, "datetime(d.format(ISO-8601)) = d fails"),
     "timespan_scale": (law_scale, "timespan scaling / ratio / negation laws fail"),
     "date_plus_time": (law_date_time, "d.date + d.time = d fails"),
     "replace_offset": (law_replace_offset, "d.replace(offset => o) does not keep the wall reading / move the instant by the offset difference"),
@@ -1132,6 +1209,9 @@ def oracle(run, deep):
             t = t if abs(t) < 2 ** 50 else t % (2 ** 40)
             check_law(run, "timespan_scale", {"t": t, "k": rng.choice([1, -1, 2, 3, -7, 10, 60, 1000, rng.randrange(1, 10 ** 4)])})
             check_law(run, "date_plus_time", {"d": gen_host(rng)})
+            hd = gen_host(rng)
+            if (DMIN + hd["wall"] * US).year >= 1000:
+                check_law(run, "iso_roundtrip", {"d": hd})
             check_law(run, "replace_offset", {"d": gen_host(rng), "offmin": gen_offmin(rng)})
         if i % 4 == 0:
             check_law(run, "naive_is_utc", {"wall": gen_wall(rng), "other": gen_host(rng, ["naive", "timezone", "tzoffset", "tzutc"]),
